@@ -868,6 +868,30 @@ Proof.
   exists (p, Some c). split; [|done]. apply elem_of_list_In. by apply assoc_In.
 Qed.
 
+(* the decided form of the nesting-depth premise implies the premise *)
+Lemma depth_le_b_sound {path : Type} (is_dir : path -> bool) (read_dir : path -> option (list path))
+      (join : path -> path -> path) (k : nat) :
+  forall p, depth_le_b is_dir read_dir join k p = true -> depth_le is_dir read_dir join k p.
+Proof.
+  induction k as [|k IHk]; intros p H; simpl in H;
+    (destruct (is_dir p) eqn:Ed; [|by apply depth_file]);
+    (destruct (read_dir p) as [names|] eqn:Er; [|by apply depth_unreadable]).
+  - discriminate.
+  - eapply depth_dir; [done|done|]. intros n Hn. apply IHk.
+    rewrite forallb_forall in H. apply H. by apply elem_of_list_In.
+Qed.
+
+(* both premises in their decided form, as the driver evaluates them on every project *)
+Lemma run_project_fuel_ok_decided d argv libs :
+  canon_idempotent_b d = true ->
+  depth_ok_b d argv = true ->
+  run_project false d argv libs <> OutOfFuel.
+Proof.
+  intros Hc Hd. apply run_project_fuel_ok; [done|].
+  apply Forall_forall. intros p Hp. apply depth_le_b_sound.
+  unfold depth_ok_b in Hd. rewrite forallb_forall in Hd. apply Hd. by apply elem_of_list_In.
+Qed.
+
 Lemma run_project_each_file_once d argv libs s :
   canon_idempotent_b d = true ->
   run_project false d argv libs = Ok s ->
